@@ -548,8 +548,11 @@ impl Matcher for KittyKeyboardMatcher {
         let name = match fields.next() {
             Some(codes) => {
                 // TODO: decode alternative keys
-                let mut codes = numbers_decode(codes, b':');
-                keyboard_decode_key(codes.next().unwrap_or(1))?
+                let code = match codes.split(|c| *c == b':').next() {
+                    Some(code) if !code.is_empty() => number_decode(code)?,
+                    _ => 1,
+                };
+                keyboard_decode_key(code)?
             }
             None => return None,
         };
@@ -557,12 +560,18 @@ impl Matcher for KittyKeyboardMatcher {
         // decode modifiers
         let mode = match fields.next() {
             Some(modes) => {
-                let mut modes = numbers_decode(modes, b':');
+                let mut modes = modes.split(|c| *c == b':');
                 let mode = match modes.next() {
-                    Some(mode) if mode > 1 => KeyMod::from_bits((mode - 1) as u32),
+                    Some(mode) if !mode.is_empty() => match number_decode(mode)? {
+                        mode if mode > 1 => KeyMod::from_bits(u32::try_from(mode - 1).ok()?),
+                        _ => KeyMod::EMPTY,
+                    },
                     _ => KeyMod::EMPTY,
                 };
-                let event_type = modes.next().unwrap_or(0);
+                let event_type = match modes.next() {
+                    Some(event_type) if !event_type.is_empty() => number_decode(event_type)?,
+                    _ => 0,
+                };
                 // TODO: decode press/release/repeat
                 if event_type != 0 {
                     return None;
